@@ -97,11 +97,15 @@ theorem idcStarFuel_singleWorld (fuel : Nat) (outcomes conditions : Event) (x : 
               | some val =>
                 rw [hg] at h
                 simp only at h
-                cases hx : exchangeOutcomes cf (newOutcomesAndConditions kordf nev outcomes conditions).fst c1 val with
+                cases hx : exchangeStep cf (newOutcomesAndConditions kordf nev outcomes conditions).fst c1 val with
                 | error err => rw [hx] at h; cases h
-                | ok no' =>
+                | ok on =>
                   rw [hx] at h
-                  exact ih _ _ _ h
+                  cases on with
+                  | none =>
+                    simp only [pure, Except.pure, Except.ok.injEq] at h
+                    subst h; exact SingleWorld.zero
+                  | some no' => exact ih _ _ _ h
             | none =>
               simp only at h
               cases hs : idStar ordf dordf G (Event.ofList ((newOutcomesAndConditions kordf nev outcomes conditions).fst ++
@@ -154,12 +158,15 @@ theorem idcStarFuel_mono (fuel : Nat) (outcomes conditions : Event) (x : Expr)
               | some val =>
                 rw [hg] at h
                 simp only at h ⊢
-                cases hx : exchangeOutcomes cf (newOutcomesAndConditions kordf nev outcomes conditions).fst c1 val with
+                cases hx : exchangeStep cf (newOutcomesAndConditions kordf nev outcomes conditions).fst c1 val with
                 | error err => rw [hx] at h; cases h
-                | ok no' =>
+                | ok on =>
                   rw [hx] at h
-                  simp only at h ⊢
-                  exact ih _ _ _ h
+                  cases on with
+                  | none => exact h
+                  | some no' =>
+                    simp only at h ⊢
+                    exact ih _ _ _ h
             | none => exact h
 
 /-! ### an ID* estimand is never a `Fraction`: the division of `Expression.conditional` is fully modelled -/
